@@ -396,3 +396,483 @@ Proof.
         constructor; [exact Hlo|apply I_live; exact I].
       * right. repeat split; auto; lia.
 Qed.
+
+Lemma malloc_spec : forall s n, 0 < n -> Inv s ->
+  Inv (fst (malloc s n)) /\ eof s < snd (malloc s n) /\
+  eof (fst (malloc s n)) = snd (malloc s n) + n - 1 /\
+  live (fst (malloc s n)) = (snd (malloc s n), n) :: live s /\
+  live_ok (snd (malloc s n), n) /\
+  (snd (malloc s n) = eof s + 1 \/
+   off (eof s) <> BLK - 1 /\ snd (malloc s n) = (blk (eof s) + 1) * BLK /\ n <= BLK /\ BLK <= off (eof s) + n).
+Proof.
+  intros s n Hn I. pose proof (append_cases s n Hn I) as H. unfold malloc.
+  destruct (append s n) as [[s' p] a] eqn:E. simpl.
+  destruct H as [H1 [H2 [H3 [H4 [H5 H6]]]]].
+  split; [exact H1|split; [exact H2|split; [exact H3|split; [exact H4|split; [exact H5|]]]]].
+  destruct H6 as [[Ha [Hp [_ [Ho _]]]]|[_ [Hp _]]]; [right|left; exact Hp].
+  split; [exact Ho|split; [exact Hp|]].
+  unfold append in E. destruct (off (eof s) =? BLK - 1); [inversion E; subst; lia|].
+  destruct ((off (eof s) + n >=? BLK) && (n <=? BLK)) eqn:E1; [|inversion E; subst; lia].
+  apply andb_prop in E1. destruct E1 as [E1 E2]. apply Z.leb_le in E2. apply Z.geb_le in E1. split; auto.
+Qed.
+
+Lemma step_Inv : forall s o, Inv s -> ok_step s o = true -> Inv (step s o).
+Proof.
+  intros s [n|p n] I Hok; simpl.
+  - apply malloc_spec; auto. simpl in Hok. apply Z.ltb_lt; auto.
+  - apply free_keeps_Inv; auto.
+Qed.
+
+Lemma run_Inv : forall h s, Inv s -> ok_hist s h = true -> Inv (run s h).
+Proof.
+  induction h as [|o t IH]; simpl; intros s I H; auto.
+  apply andb_prop in H. destruct H as [H1 H2]. apply IH; auto. apply step_Inv; auto.
+Qed.
+
+(* ------------------------------------------------------------------ consequences of the invariant *)
+Lemma pairwise_app : forall a b, pairwise (a ++ b) ->
+  pairwise a /\ pairwise b /\ (forall x y, In x a -> In y b -> rdisj x y).
+Proof.
+  induction a as [|r a IH]; simpl; intros b H.
+  - repeat split; auto. intros x y [].
+  - destruct H as [H1 H2]. destruct (IH _ H2) as [Ha [Hb Hc]].
+    apply Forall_app in H1. destruct H1 as [H1a H1b].
+    repeat split; auto. intros x y [Hx|Hx] Hy; [subst x|auto].
+    rewrite Forall_forall in H1b. auto.
+Qed.
+
+Lemma total_regions : forall s,
+  total (regions s) = total (live s) + total (free_regions s) + total (dead s) + total (lost s).
+Proof. intros; unfold regions. rewrite !total_app. lia. Qed.
+
+(* (a) no overlap *)
+Theorem alloc_no_overlap : forall h, ok_hist init_st h = true ->
+  let s := run init_st h in
+  pairwise (regions s) /\
+  Forall (in_file (eof s)) (regions s) /\
+  pairwise (live s) /\
+  (forall a b, In a (live s) -> In b (free_regions s ++ dead s ++ lost s) -> rdisj a b) /\
+  (forall a, In a (live s) -> HDR <= fst a /\ fst a + snd a <= eof s + 1).
+Proof.
+  intros h H s. pose proof (run_Inv h init_st Inv_init H) as I. fold s in I.
+  pose proof (I_disj s I) as D. pose proof (I_in s I) as F.
+  split; [auto|split; [auto|]].
+  unfold regions in D. destruct (pairwise_app _ _ D) as [D1 [_ D3]].
+  split; [auto|split; [auto|]].
+  intros a Ha. rewrite Forall_forall in F. unfold regions in F.
+  destruct (F a) as [A [B C]]; [apply in_or_app; auto|]. lia.
+Qed.
+
+(* the same for every state that satisfies the invariant (for instance a file written earlier) *)
+Theorem alloc_invariant_preserved : forall s h, Inv s -> ok_hist s h = true -> Inv (run s h).
+Proof. intros; apply run_Inv; auto. Qed.
+
+(* (b) the free lists *)
+Theorem alloc_free_lists_well_formed : forall h, ok_hist init_st h = true ->
+  let s := run init_st h in
+  fl_wf small_ok (small s) /\ fl_wf medium_ok (medium s) /\ fl_wf large_ok (large s) /\
+  pairwise (free_regions s) /\
+  Forall (in_file (eof s)) (free_regions s).
+Proof.
+  intros h H s. pose proof (run_Inv h init_st Inv_init H) as I. fold s in I.
+  split; [apply I_small; auto|split; [apply I_medium; auto|split; [apply I_large; auto|]]].
+  pose proof (I_disj s I) as D. pose proof (I_in s I) as F. unfold regions in *.
+  destruct (pairwise_app _ _ D) as [_ [D2 _]]. destruct (pairwise_app _ _ D2) as [D3 _].
+  split; auto. apply Forall_app in F. destruct F as [_ F]. apply Forall_app in F. destruct F; auto.
+Qed.
+
+(* (c) conservation *)
+Theorem alloc_conservation : forall h, ok_hist init_st h = true ->
+  let s := run init_st h in
+  total (live s) + total (free_regions s) + total (dead s) + total (lost s) = eof s + 1 - HDR.
+Proof.
+  intros h H s. pose proof (run_Inv h init_st Inv_init H) as I. fold s in I.
+  rewrite <- total_regions. apply I_total; auto.
+Qed.
+
+(* (d) malloc: total, at least the bytes asked for, never in space handed out or freed before, block rule *)
+Theorem alloc_malloc_total : forall s n, Inv s -> 0 < n ->
+  let s' := fst (malloc s n) in let p := snd (malloc s n) in
+  Inv s' /\ In (p, n) (live s') /\ eof s < p /\ eof s' = p + n - 1 /\
+  Forall (rdisj (p, n)) (regions s) /\
+  (n <= BLK -> blk p = blk (p + n - 1)) /\
+  (p = eof s + 1 \/ off (eof s) <> BLK - 1 /\ p = (blk (eof s) + 1) * BLK /\ n <= BLK /\ BLK <= off (eof s) + n).
+Proof.
+  intros s n I Hn s' p. destruct (malloc_spec s n Hn I) as [H1 [H2 [H3 [H4 [H5 H6]]]]].
+  fold s' p in H1, H2, H3, H4, H5, H6.
+  split; [exact H1|split; [rewrite H4; left; reflexivity|split; [exact H2|split; [exact H3|split; [|split; [exact H5|exact H6]]]]]].
+  pose proof (I_in s I) as F. eapply Forall_impl; [|exact F].
+  unfold in_file, rdisj; simpl; intros; lia.
+Qed.
+
+(* ------------------------------------------------------------------ push-only lists: free space is exactly accounted *)
+Fixpoint handed_back (s : st) (h : list op) : list region :=
+  match h with
+  | [] => []
+  | OMalloc n :: t => (match malloc_gap s n with Some g => [g] | None => [] end) ++ handed_back (step s (OMalloc n)) t
+  | OFree p n :: t => (p, n) :: handed_back (step s (OFree p n)) t
+  end.
+
+Definition free_space (s : st) : list region := free_regions s ++ dead s.
+
+Lemma free_raw_free_space : forall s p n, Permutation ((p, n) :: free_space s) (free_space (free_raw s p n)).
+Proof.
+  intros. unfold free_space, free_regions, free_raw. rewrite <- !app_assoc.
+  destruct (classify p n); cbn [small medium large live dead lost eof].
+  - apply perm_ins3.
+  - rewrite fl_regions_push. apply perm_nil || apply Permutation_refl.
+  - rewrite fl_regions_push. apply perm_ins1.
+  - rewrite fl_regions_push. apply perm_ins2.
+Qed.
+
+Lemma forget_free_space : forall s p n, free_space (forget s p n) = free_space s.
+Proof. intros. unfold free_space, free_regions. destruct (forget_fields s p n) as [_ [A [B [C D]]]]. rewrite A, B, C, D. reflexivity. Qed.
+
+Lemma malloc_free_space : forall s n,
+  Permutation ((match malloc_gap s n with Some g => [g] | None => [] end) ++ free_space s) (free_space (fst (malloc s n))).
+Proof.
+  intros. unfold malloc_gap, malloc_arm, malloc, append.
+  destruct (off (eof s) =? BLK - 1); simpl; [apply Permutation_refl|].
+  destruct ((off (eof s) + n >=? BLK) && (n <=? BLK)); simpl; [|apply Permutation_refl].
+  apply (free_raw_free_space s (eof s + 1) (BLK - off (eof s + 1))).
+Qed.
+
+Theorem alloc_free_space_accounted : forall h s,
+  Permutation (free_space (run s h)) (rev (handed_back s h) ++ free_space s).
+Proof.
+  induction h as [|o t IH]; intros s; simpl.
+  - apply Permutation_refl.
+  - eapply perm_trans; [apply IH|]. destruct o as [n|p n].
+    + rewrite rev_app_distr, <- app_assoc. apply Permutation_app_head.
+      eapply perm_trans; [apply Permutation_sym, (malloc_free_space s n)|].
+      apply Permutation_app_tail. apply Permutation_rev.
+    + simpl. rewrite <- app_assoc. apply Permutation_app_head. simpl.
+      unfold free. eapply perm_trans; [apply Permutation_sym, free_raw_free_space|].
+      rewrite forget_free_space. apply Permutation_refl.
+Qed.
+
+(* nothing ever leaves a list, and entries are added at the head only *)
+Lemma push_suffix : forall f p e, exists pre, fl_chunks (push f p e) = pre ++ fl_chunks f.
+Proof. intros; exists [(p, e)]; reflexivity. Qed.
+
+Definition grows (a b : st) : Prop :=
+  (exists x, fl_chunks (small b) = x ++ fl_chunks (small a)) /\
+  (exists x, fl_chunks (medium b) = x ++ fl_chunks (medium a)) /\
+  (exists x, fl_chunks (large b) = x ++ fl_chunks (large a)) /\
+  (exists x, dead b = x ++ dead a) /\ eof a <= eof b.
+
+Lemma grows_refl : forall s, grows s s.
+Proof. intros; repeat split; try (exists []; reflexivity); lia. Qed.
+Lemma grows_trans : forall a b c, grows a b -> grows b c -> grows a c.
+Proof.
+  intros a b c [[x1 A1] [[x2 A2] [[x3 A3] [[x4 A4] A5]]]] [[y1 B1] [[y2 B2] [[y3 B3] [[y4 B4] B5]]]].
+  repeat split; try lia.
+  - exists (y1 ++ x1). rewrite B1, A1, app_assoc; reflexivity.
+  - exists (y2 ++ x2). rewrite B2, A2, app_assoc; reflexivity.
+  - exists (y3 ++ x3). rewrite B3, A3, app_assoc; reflexivity.
+  - exists (y4 ++ x4). rewrite B4, A4, app_assoc; reflexivity.
+Qed.
+Lemma free_raw_grows : forall s p n, grows s (free_raw s p n).
+Proof.
+  intros. unfold free_raw. destruct (classify p n); repeat split; cbn [small medium large dead eof push fl_chunks];
+    try (exists []; reflexivity); try lia; try (eexists [_]; reflexivity).
+Qed.
+Lemma forget_grows : forall s p n, grows s (forget s p n).
+Proof.
+  intros. destruct (forget_fields s p n) as [A [B [C [D E]]]]. unfold grows. rewrite A, B, C, D, E.
+  repeat split; try (exists []; reflexivity); lia.
+Qed.
+Lemma malloc_grows : forall s n, 0 < n -> grows s (fst (malloc s n)).
+Proof.
+  intros s n Hn. unfold malloc, append. destruct (blk_off (eof s)) as [He Ho].
+  destruct (off (eof s) =? BLK - 1) eqn:E0; simpl.
+  - apply Z.eqb_eq in E0. repeat split; try (exists []; reflexivity). simpl. lia.
+  - destruct ((off (eof s) + n >=? BLK) && (n <=? BLK)) eqn:E1; simpl.
+    + destruct (free_raw_grows s (eof s + 1) (BLK - off (eof s + 1))) as [A [B [C [D E]]]].
+      repeat split; auto. simpl. lia.
+    + repeat split; try (exists []; reflexivity). simpl. lia.
+Qed.
+
+Theorem alloc_lists_only_grow : forall h s, ok_hist s h = true -> grows s (run s h).
+Proof.
+  induction h as [|o t IH]; simpl; intros s H; [apply grows_refl|].
+  apply andb_prop in H. destruct H as [H1 H2].
+  eapply grows_trans; [|apply IH; exact H2].
+  destruct o as [n|p n]; simpl.
+  - apply malloc_grows. simpl in H1. apply Z.ltb_lt; auto.
+  - unfold free. eapply grows_trans; [apply forget_grows|apply free_raw_grows].
+Qed.
+
+(* every range handed back by a caller is the beginning of a live allocation (this is ok_hist, restated) *)
+Lemma ok_free_is_live_prefix : forall s p n, ok_step s (OFree p n) = true ->
+  exists m, In (p, m) (live s) /\ 0 < n <= m.
+Proof.
+  intros s p n H. simpl in H. destruct (take_live p (live s)) as [[r l']|] eqn:T; [|discriminate].
+  apply andb_prop in H. destruct H as [H0 H1]. apply Z.ltb_lt in H0. apply Z.leb_le in H1.
+  destruct (take_live_perm _ _ _ _ T) as [P F]. exists (snd r). split; [|lia].
+  eapply Permutation_in; [apply Permutation_sym; exact P|]. left. destruct r; simpl in *; subst; reflexivity.
+Qed.
+
+(* ------------------------------------------------------------------ exact frees: nothing is lost, the large list holds large chunks *)
+Lemma exact_ok_step : forall s o, exact_step s o = true -> ok_step s o = true.
+Proof.
+  intros s [n|p n]; simpl; auto. destruct (take_live p (live s)) as [[r l']|]; auto.
+  intros H. apply andb_prop in H. destruct H as [H0 H1]. apply Z.eqb_eq in H1. rewrite H0. simpl. apply Z.leb_le. lia.
+Qed.
+Lemma exact_ok_hist : forall h s, exact_hist s h = true -> ok_hist s h = true.
+Proof.
+  induction h as [|o t IH]; simpl; intros s H; auto. apply andb_prop in H. destruct H as [H1 H2].
+  rewrite (exact_ok_step _ _ H1). simpl. auto.
+Qed.
+
+Definition Exact (s : st) : Prop := lost s = [] /\ Forall large_strong (fl_chunks (large s)).
+
+Lemma free_raw_large_strong : forall s p n, live_ok (p, n) -> Forall large_strong (fl_chunks (large s)) ->
+  Forall large_strong (fl_chunks (large (free_raw s p n))).
+Proof.
+  intros s p n Hl H. unfold free_raw. destruct (classify p n) eqn:E; cbn [large]; auto.
+  unfold push; simpl. constructor; auto. apply classify_large_strong; auto.
+Qed.
+
+Lemma exact_step_Exact : forall s o, Inv s -> Exact s -> exact_step s o = true -> Exact (step s o).
+Proof.
+  intros s [n|p n] I [HL HG] H; simpl in *.
+  - apply Z.ltb_lt in H. pose proof (append_cases s n H I) as A. unfold malloc.
+    destruct (append s n) as [[s' q] a]. simpl. destruct A as [_ [_ [_ [_ [_ A]]]]].
+    destruct A as [[_ [_ [_ [Ho [Hq [_ [_ [_ [Hlg [_ Hlo]]]]]]]]]]|[_ [_ [_ [_ [_ [Hlg [_ Hlo]]]]]]]].
+    + split; [rewrite Hlo; auto|]. rewrite Hlg. apply free_raw_large_strong; auto.
+      (* the rest of a block lies inside that block *)
+      unfold live_ok; cbn [fst snd]; intros _. destruct (blk_off (eof s)) as [He Hb].
+      assert (Hog : off (eof s + 1) = off (eof s) + 1).
+      { replace (eof s + 1) with (blk (eof s) * BLK + (off (eof s) + 1)) by lia. apply off_start. lia. }
+      rewrite Hog.
+      replace (eof s + 1) with (blk (eof s) * BLK + (off (eof s) + 1)) at 1 by lia.
+      replace (eof s + 1 + (BLK - (off (eof s) + 1)) - 1) with (blk (eof s) * BLK + (BLK - 1)) by lia.
+      rewrite !blk_start by lia. reflexivity.
+    + split; [rewrite Hlo; auto|rewrite Hlg; auto].
+  - destruct (take_live p (live s)) as [[r l']|] eqn:T; [|discriminate].
+    apply andb_prop in H. destruct H as [H0 H1]. apply Z.ltb_lt in H0. apply Z.eqb_eq in H1.
+    destruct (take_live_perm _ _ _ _ T) as [P F].
+    assert (Hl : live_ok (p, n)).
+    { pose proof (I_live s I) as V. eapply Permutation_Forall in V; [|exact P]. inversion V; subst.
+      destruct r; simpl in *; subst; auto. }
+    unfold free. split.
+    + assert (lost (free_raw (forget s p n) p n) = lost (forget s p n)) as -> by (unfold free_raw; destruct (classify p n); reflexivity).
+      unfold forget. rewrite T. simpl. rewrite H1, Z.ltb_irrefl. auto.
+    + apply free_raw_large_strong; auto. destruct (forget_fields s p n) as [_ [_ [_ [C _]]]]. rewrite C; auto.
+Qed.
+
+Theorem alloc_exact_histories : forall h, exact_hist init_st h = true ->
+  let s := run init_st h in
+  lost s = [] /\
+  total (live s) + total (free_regions s) + total (dead s) = eof s + 1 - HDR /\
+  Forall large_strong (fl_chunks (large s)).
+Proof.
+  intros h H s.
+  assert (G : forall h s0, Inv s0 -> Exact s0 -> exact_hist s0 h = true -> Exact (run s0 h)).
+  { clear. induction h as [|o t IH]; simpl; intros s0 I E H; auto.
+    apply andb_prop in H. destruct H as [H1 H2]. apply IH; auto.
+    - apply step_Inv; auto. apply exact_ok_step; auto.
+    - apply exact_step_Exact; auto. }
+  destruct (G h init_st Inv_init (conj eq_refl (Forall_nil _)) H) as [E1 E2]. fold s in E1, E2.
+  split; [auto|split; [|auto]].
+  pose proof (alloc_conservation h (exact_ok_hist _ _ H)) as C. simpl in C. fold s in C. rewrite E1 in C. simpl in C. lia.
+Qed.
+
+(* ------------------------------------------------------------------ characterisations by witness (vm_compute) *)
+(* 1. the medium list is not bounded by MEDIUM_CHUNK_MAXIMUM: a chunk of 4098 bytes that starts on a block boundary has the
+      START of its end tag in the same block, so it is "small or medium"; its last bytes lie in the next block.
+      (two sibling nodes, 2700 and 4078 bytes of data, the second deleted: corpus history "medium-holds-4098") *)
+Definition wit_medium : list op :=
+  [OMalloc 246; OMalloc 372; OMalloc 246; OMalloc 2720; OMalloc 4098; OFree 4096 4098].
+Lemma medium_class_bound_refuted :
+  exact_hist init_st wit_medium = true /\
+  fl_chunks (medium (run init_st wit_medium)) = [(4096, 8190)] /\
+  csize (4096, 8190) = 4098 /\ MEDIUM_CHUNK_MAXIMUM < csize (4096, 8190) /\
+  blk 4096 <> blk (4096 + 4098 - 1).
+Proof. vm_compute. repeat split; congruence. Qed.
+
+(* 2. a caller that hands back less than it was given loses the rest: without [lost] the books do not balance.
+      (ADF_Write_All_Data rewrites a node's single 2279-byte data chunk for 2140 bytes of data; the chunk is later freed by
+       its tags: 2160 bytes; corpus history "shrunk-chunk") *)
+Definition wit_short : list op := [OMalloc 246; OMalloc 372; OMalloc 2279; OFree 1130 2160].
+Lemma conservation_needs_lost_refuted :
+  ok_hist init_st wit_short = true /\ exact_hist init_st wit_short = false /\
+  let s := run init_st wit_short in
+  lost s = [(3290, 119)] /\
+  total (live s) + total (free_regions s) + total (dead s) = eof s + 1 - HDR - 119.
+Proof. vm_compute. repeat split; congruence. Qed.
+
+(* 3. after a short free the large list may hold a chunk of less than a block (a 5000-byte allocation that straddles
+      a block boundary, handed back as 2020 bytes) *)
+Definition wit_large : list op := [OMalloc 2488; OMalloc 5000; OFree 3000 2020].
+Lemma large_class_bound_refuted :
+  ok_hist init_st wit_large = true /\
+  fl_chunks (large (run init_st wit_large)) = [(3000, 5016)] /\ csize (3000, 5016) = 2020.
+Proof. vm_compute. repeat split; congruence. Qed.
+
+(* 4. freed space is never handed out again: after any number of frees the next allocation lies beyond end_of_file
+      (the search of the free lists in ADFI_file_malloc is inside "#if 0") -- a corollary of alloc_malloc_total, shown
+      on a history where a fitting free chunk exists *)
+Definition wit_noreuse : list op := [OMalloc 246; OMalloc 372; OMalloc 3000; OFree 4096 3000; OMalloc 3000].
+Lemma freed_space_is_not_reused :
+  exact_hist init_st wit_noreuse = true /\
+  positions init_st wit_noreuse = [512; 758; 4096; 8192] /\
+  free_regions (run init_st wit_noreuse) = [(7096, 1096); (4096, 3000); (1130, 2966)].
+Proof. vm_compute. repeat split; congruence. Qed.
+
+(* non-vacuity: a history that exercises all three arms of ADFI_file_malloc, the four classes, exact frees *)
+Definition wit_mixed : list op :=
+  [OMalloc 246; OMalloc 372; OMalloc 246; OMalloc 2720; OMalloc 300; OMalloc 3700; OMalloc 200; OMalloc 9000;
+   OFree 758 372; OFree 4096 300; OFree 1376 2720; OFree 512 246; OMalloc 1025; OFree 8392 9000; OMalloc 4096].
+Lemma wit_mixed_ok :
+  exact_hist init_st wit_mixed = true /\ ok_hist init_st wit_mixed = true /\
+  positions init_st wit_mixed = [512; 758; 1130; 1376; 4096; 4396; 8192; 8392; 17392; 20480] /\
+  let s := run init_st wit_mixed in
+  eof s = 24575 /\
+  fl_chunks (small s) = [(4096, 4392); (758, 1126)] /\ fl_chunks (medium s) = [(18417, 20476); (1376, 4092)] /\
+  fl_chunks (large s) = [(8392, 17388)] /\ dead s = [(512, 246); (8096, 96)] /\
+  fl_last (small s) = Some 758 /\ fl_last (medium s) = Some 1376 /\ fl_last (large s) = Some 8392.
+Proof. vm_compute. repeat split; congruence. Qed.
+
+(* ================================================================== the disabled search ([malloc_search])
+   What the text inside "#if 0" of ADFI_file_malloc would keep true if it were compiled: no overlap and the conservation
+   of bytes (the part of the invariant that does not mention the block rule -- a reused chunk may straddle -- nor the
+   last_block pointers). *)
+Definition CoreInv (s : st) : Prop := Core (eof s) (regions s) /\ HDR - 1 <= eof s.
+
+Lemma free_Core : forall s p n, CoreInv s -> ok_step s (OFree p n) = true -> CoreInv (free s p n).
+Proof.
+  intros s p n [C Hh] Hok. simpl in Hok. destruct (take_live p (live s)) as [[r l']|] eqn:T; [|discriminate].
+  apply andb_prop in Hok. destruct Hok as [H0 H1]. apply Z.ltb_lt in H0. apply Z.leb_le in H1.
+  destruct (forget_fields s p n) as [Fe _].
+  split; [|unfold free; rewrite free_raw_eof, Fe; exact Hh].
+  unfold free. rewrite free_raw_eof, Fe.
+  destruct (forget_perm s p n r l' T (conj H0 H1)) as [[P1 [E1 _]]|[P1 [E1 P2]]].
+  - eapply Core_perm; [apply free_raw_perm|]. rewrite <- E1 in P1. eapply Core_perm; [exact P1|exact C].
+  - eapply Core_perm; [apply free_raw_perm|].
+    eapply Core_perm in C; [|exact P1]. destruct C as [A [B D]].
+    destruct (split_region p (snd r) n _ (eof s) (conj H0 E1) A B) as [A' [B' D']].
+    assert (P3 : Permutation ((p, n) :: (p + n, snd r - n) :: l' ++ free_regions s ++ dead s ++ lost s)
+                             ((p, n) :: regions (forget s p n))) by (apply perm_skip; exact P2).
+    eapply Core_perm; [exact P3|]. split; [exact A'|split; [exact B'|rewrite D'; exact D]].
+Qed.
+
+Lemma malloc_Core : forall s n, CoreInv s -> 0 < n -> CoreInv (fst (malloc s n)).
+Proof.
+  intros s n [C Hh] Hn. unfold malloc, append. destruct (blk_off (eof s)) as [He Ho].
+  destruct (off (eof s) =? BLK - 1) eqn:E0.
+  - apply Z.eqb_eq in E0. assert (Hp : (blk (eof s) + 1) * BLK = eof s + 1) by lia.
+    cbn [fst]. rewrite Hp. split; [|cbn [eof add_live set_eof]; lia]. cbn [eof add_live set_eof].
+    replace (eof s + 1 + n - 1) with (eof s + n) by lia. apply (Core_grow (eof s) (regions s) n C Hh Hn).
+  - apply Z.eqb_neq in E0.
+    destruct ((off (eof s) + n >=? BLK) && (n <=? BLK)) eqn:E1.
+    + assert (Hog : off (eof s + 1) = off (eof s) + 1).
+      { replace (eof s + 1) with (blk (eof s) * BLK + (off (eof s) + 1)) by lia. apply off_start. lia. }
+      set (gn := BLK - off (eof s + 1)) in *.
+      assert (Hp : (blk (eof s) + 1) * BLK = eof s + gn + 1) by (unfold gn; lia).
+      assert (Hgn : 0 < gn) by (unfold gn; lia).
+      assert (C1 : Core (eof s + gn) (regions (free_raw s (eof s + 1) gn))).
+      { eapply Core_perm; [apply free_raw_perm|]. apply Core_grow; auto. }
+      pose proof (Core_grow (eof s + gn) _ n C1 ltac:(lia) Hn) as G.
+      cbn [fst]. rewrite Hp. split; [|cbn [eof add_live set_eof]; rewrite ?free_raw_eof; lia]. cbn [eof add_live set_eof].
+      replace (eof s + gn + 1 + n - 1) with (eof s + gn + n) by lia. exact G.
+    + cbn [fst]. split; [|cbn [eof add_live set_eof]; lia]. cbn [eof add_live set_eof].
+      apply (Core_grow (eof s) (regions s) n C Hh Hn).
+Qed.
+
+Lemma find_fit_perm : forall n l prev c pv l', find_fit n prev l = Some (c, pv, l') ->
+  Permutation l (c :: l') /\ n <= csize c.
+Proof.
+  induction l as [|x t IH]; simpl; intros prev c pv l' H; [discriminate|].
+  destruct (snd x + TAG_SIZE - fst x >=? n) eqn:E.
+  - inversion H; subst. apply Z.geb_le in E. split; [apply Permutation_refl|unfold csize; lia].
+  - destruct (find_fit n (Some (fst x)) t) as [[[c0 pv0] t0]|] eqn:F; [|discriminate].
+    inversion H; subst. destruct (IH _ _ _ _ F) as [P S]. split; auto.
+    eapply perm_trans; [apply perm_skip; exact P|apply perm_swap].
+Qed.
+
+Lemma fl_take_perm : forall n f c f', fl_take n f = Some (c, f') ->
+  Permutation (fl_regions f) (chunk_region c :: fl_regions f') /\ n <= csize c.
+Proof.
+  unfold fl_take; intros n f c f' H.
+  destruct (find_fit n None (fl_chunks f)) as [[[c0 pv] l']|] eqn:F; [|discriminate].
+  inversion H; subst. destruct (find_fit_perm _ _ _ _ _ _ F) as [P S]. split; auto.
+  unfold fl_regions; simpl. change (chunk_region c :: map chunk_region l') with (map chunk_region (c :: l')).
+  apply Permutation_map; auto.
+Qed.
+
+(* taking a chunk off a list and carving the allocation out of it *)
+Lemma carve_Core : forall s s0 c n,
+  CoreInv s -> 0 < n -> n <= csize c -> eof s0 = eof s ->
+  Permutation (regions s) (chunk_region c :: regions s0) ->
+  CoreInv (fst (carve s0 c n)).
+Proof.
+  intros s s0 c n [C Hh] Hn Hs He P. unfold carve, csize in *.
+  eapply Core_perm in C; [|exact P]. unfold chunk_region in C.
+  destruct (0 <? snd c + TAG_SIZE - fst c - n) eqn:E.
+  - apply Z.ltb_lt in E. destruct C as [A [B D]].
+    destruct (split_region (fst c) (snd c + TAG_SIZE - fst c) n (regions s0) (eof s) ltac:(lia) A B) as [A' [B' D']].
+    split; [|cbn [fst eof add_live]; rewrite free_raw_eof; lia].
+    cbn [fst eof add_live]. rewrite free_raw_eof, He.
+    change (regions (add_live (free_raw s0 (fst c + n) (snd c + TAG_SIZE - fst c - n)) (fst c) n))
+      with ((fst c, n) :: regions (free_raw s0 (fst c + n) (snd c + TAG_SIZE - fst c - n))).
+    eapply Core_perm; [apply perm_skip; apply free_raw_perm|].
+    refine (conj A' (conj B' _)). exact (eq_trans D' D).
+  - apply Z.ltb_ge in E. assert (Hn' : snd c + TAG_SIZE - fst c = n) by lia.
+    split; [|cbn [fst eof add_live]; lia]. cbn [fst eof add_live]. rewrite He.
+    change (regions (add_live s0 (fst c) n)) with ((fst c, n) :: regions s0). rewrite <- Hn'. exact C.
+Qed.
+
+Lemma set_lists_regions_small : forall s f', regions (set_lists s f' (medium s) (large s)) =
+  live s ++ (fl_regions f' ++ fl_regions (medium s) ++ fl_regions (large s)) ++ dead s ++ lost s.
+Proof. reflexivity. Qed.
+
+Lemma malloc_search_Core : forall s n, CoreInv s -> 0 < n -> CoreInv (fst (malloc_search s n)).
+Proof.
+  intros s n I Hn. unfold malloc_search.
+  destruct (n <=? SMALLEST_CHUNK_SIZE); [apply malloc_Core; auto|].
+  destruct (if n <=? SMALL_CHUNK_MAXIMUM then fl_take n (small s) else None) as [[c f']|] eqn:T1.
+  - destruct (n <=? SMALL_CHUNK_MAXIMUM); [|discriminate]. destruct (fl_take_perm _ _ _ _ T1) as [P S].
+    apply (carve_Core s); auto. rewrite !regions_flat. cbn [set_lists small medium large live dead lost].
+    eapply perm_trans; [|apply Permutation_sym, perm_ins1]. apply Permutation_app_head.
+    change (chunk_region c :: fl_regions f' ++ fl_regions (medium s) ++ fl_regions (large s) ++ dead s ++ lost s)
+      with ((chunk_region c :: fl_regions f') ++ fl_regions (medium s) ++ fl_regions (large s) ++ dead s ++ lost s).
+    apply Permutation_app_tail. exact P.
+  - destruct (if n <=? MEDIUM_CHUNK_MAXIMUM then fl_take n (medium s) else None) as [[c f']|] eqn:T2.
+    + destruct (n <=? MEDIUM_CHUNK_MAXIMUM); [|discriminate]. destruct (fl_take_perm _ _ _ _ T2) as [P S].
+      apply (carve_Core s); auto. rewrite !regions_flat. cbn [set_lists small medium large live dead lost].
+      eapply perm_trans; [|apply Permutation_sym, perm_ins2]. do 2 apply Permutation_app_head.
+      change (chunk_region c :: fl_regions f' ++ fl_regions (large s) ++ dead s ++ lost s)
+        with ((chunk_region c :: fl_regions f') ++ fl_regions (large s) ++ dead s ++ lost s).
+      apply Permutation_app_tail. exact P.
+    + destruct (fl_take n (large s)) as [[c f']|] eqn:T3; [|apply malloc_Core; auto].
+      destruct (fl_take_perm _ _ _ _ T3) as [P S].
+      apply (carve_Core s); auto. rewrite !regions_flat. cbn [set_lists small medium large live dead lost].
+      eapply perm_trans; [|apply Permutation_sym, perm_ins3]. do 3 apply Permutation_app_head.
+      change (chunk_region c :: fl_regions f' ++ dead s ++ lost s)
+        with ((chunk_region c :: fl_regions f') ++ dead s ++ lost s).
+      apply Permutation_app_tail. exact P.
+Qed.
+
+Theorem search_no_overlap_conservation : forall h, ok_hist_search init_st h = true ->
+  let s := run_search init_st h in
+  pairwise (regions s) /\ Forall (in_file (eof s)) (regions s) /\
+  total (live s) + total (free_regions s) + total (dead s) + total (lost s) = eof s + 1 - HDR.
+Proof.
+  assert (G : forall h s, CoreInv s -> ok_hist_search s h = true -> CoreInv (run_search s h)).
+  { induction h as [|o t IH]; simpl; intros s I H; auto.
+    apply andb_prop in H. destruct H as [H1 H2]. apply IH; auto.
+    destruct o as [n|p n]; simpl.
+    - apply malloc_search_Core; auto. simpl in H1. apply Z.ltb_lt; auto.
+    - apply free_Core; auto. }
+  intros h H s. destruct (G h init_st) as [[A [B C]] _]; auto.
+  { split; [apply Inv_Core; apply Inv_init|apply (I_eof _ Inv_init)]. }
+  fold s in A, B, C. rewrite <- total_regions. auto.
+Qed.
+
+(* and it does reuse: the witness on which the compiled allocator goes to the end of file *)
+Lemma search_reuses :
+  ok_hist_search init_st wit_noreuse = true /\
+  snd (malloc_search (run_search init_st [OMalloc 246; OMalloc 372; OMalloc 3000; OFree 4096 3000]) 3000) = 4096.
+Proof. vm_compute. split; reflexivity. Qed.
